@@ -31,7 +31,7 @@ func c18Builders(p *Prog, r *Report) {
 		if !implementsIface(fn.Signature.Recv().Type(), cmdIface) {
 			return false
 		}
-		switch fn.Name() {
+		switch originName(fn) {
 		case "ReadCmdType", "ReplyCmdType", "NotifyOrWriteCmdType":
 			return true
 		}
@@ -79,11 +79,9 @@ func c18Builders(p *Prog, r *Report) {
 			}
 			// R6t/R6c are evaluated once per calling context (depth 1) of the function containing the call
 			var ctxs []map[*ssa.Function]ssa.CallInstruction
-			if node := p.CG().Nodes[fn]; node != nil && !isAPI(fn) {
-				for _, e := range node.In {
-					if p.IsRepoFn(e.Caller.Func) {
-						ctxs = append(ctxs, map[*ssa.Function]ssa.CallInstruction{fn: e.Site})
-					}
+			if !isAPI(fn) {
+				for _, site := range p.Callers(fn) {
+					ctxs = append(ctxs, map[*ssa.Function]ssa.CallInstruction{fn: site})
 				}
 			}
 			if len(ctxs) == 0 {
